@@ -9,7 +9,7 @@ import re
 
 from vt import core
 from vt.main import decide
-from translate import front_tr
+from translate import front_tr, kinds_tr
 from props import c23_gen
 
 CORPUS = os.path.join(core.VERIF, "corpus", "C23")
@@ -304,7 +304,7 @@ def evaluate(chk, cases, tag="C23"):
 
 
 def run(chk):
-    chk.prove([front_tr.translate])
+    chk.prove([front_tr.translate, kinds_tr.translate])   # Model/Front.v runs C03's Model/Kinds.v (Gen/SrcKinds.v)
     n = 9000 if chk.thorough else 640
     cases = load_corpus() + gen_cases(chk, n)
     if chk.thorough:
